@@ -12,18 +12,22 @@ EXTENDS Naturals, Sequences, FiniteSets, TLC
 
 Tags == {"int", "negint", "bigint", "bool", "none", "float", "negfloat", "inf", "nan", "complex", "str", "mlstr",
          "bytes", "enum", "flag", "flagcombo", "flag0", "type", "hasrepr", "dataclass", "dataclass_default",
-         "dataclass_factory", "dataclass_norepr", "attrs", "pydantic", "namedtuple", "defaultdict", "external"}
+         "dataclass_factory", "dataclass_norepr", "attrs", "pydantic", "namedtuple", "defaultdict", "external",
+         \* a HasRepr value whose __repr__ embeds repr(child) of a child with customised code (an Enum member): the
+         \* recorded string and the string computed when reading back must both use the code representation;
+         \* a class with a handler registered by the user with @customize_repr
+         "hasrepr_nested", "usercustom"}
 Strategy(t) ==
-  CASE t \in {"enum", "flag", "flagcombo", "flag0", "type"} -> "custom"          \* customize_repr registrations
+  CASE t \in {"enum", "flag", "flagcombo", "flag0", "type", "usercustom"} -> "custom"          \* customize_repr registrations
     [] t \in {"dataclass", "dataclass_default", "dataclass_factory", "dataclass_norepr", "attrs", "pydantic",
               "namedtuple", "defaultdict"} -> "call"                                \* constructor-call adapters
-    [] t = "hasrepr" -> "hasrepr"                                                   \* repr is not Python: HasRepr(type, repr)
+    [] t \in {"hasrepr", "hasrepr_nested"} -> "hasrepr"                                                   \* repr is not Python: HasRepr(type, repr)
     [] t = "external" -> "external"                                                 \* outsource(...) -> external("hash*.sfx")
     [] OTHER -> "repr"
 NeedsImport(t) == CASE Strategy(t) = "hasrepr" -> {"HasRepr"} [] Strategy(t) = "external" -> {"external"} [] OTHER -> {}
 Orderable(t) == t \in {"int", "negint", "bigint", "bool", "float", "negfloat", "str", "mlstr", "bytes"}
 Hashable(t) == t \notin {"dataclass", "dataclass_default", "dataclass_factory", "dataclass_norepr", "attrs", "pydantic",
-                         "defaultdict", "hasrepr"}
+                         "defaultdict", "hasrepr", "hasrepr_nested", "usercustom"}
 \* leaf types for which the generated code is known NOT to read back (finding F15): repr(inf) = `inf` is no
 \* expression, a Flag without members has an empty code, a field with repr=False is dropped, nan != nan
 KnownGap(t) == t \in {"inf", "nan", "flag0", "dataclass_norepr"}
